@@ -793,6 +793,13 @@ class H2Connection:
                     (max_open_streams, self.open_outbound_streams)
                 )
 
+        if not self.config.client_side:
+            # Servers cannot open streams by sending HEADERS: they respond on
+            # streams the client opened or that they promised. Check this
+            # before the connection state machine sees the input: on an idle
+            # connection it would take us for a client.
+            stream = self._get_stream_by_id(stream_id)
+
         self.state_machine.process_input(ConnectionInputs.SEND_HEADERS)
         new_stream = stream_id not in self.streams
         highest_outbound_stream_id = self.highest_outbound_stream_id
@@ -800,10 +807,6 @@ class H2Connection:
             stream = self._get_or_create_stream(
                 stream_id, AllowedStreamIDs.ODD
             )
-        else:
-            # Servers cannot open streams by sending HEADERS: they respond on
-            # streams the client opened or that they promised.
-            stream = self._get_stream_by_id(stream_id)
         try:
             frames = stream.send_headers(
                 headers, self.encoder, end_stream,
